@@ -1526,4 +1526,39 @@ theorem doEvent_noPanic (c : Cfg) (re : Oracle) (hok : LoopOk re 0 c.masks) (roo
     · exact rootLoop_noPanic c re hok _ _ _ _ _
     · exact doNode_noPanic c re hok _ _ _ _ _
 
+
+/-! ### witnesses used by the counterexample theorems of Props/C17.lean -/
+
+def wSecret : Bytes := [115, 101, 99, 114, 101, 116]
+
+/-- masks [`(secret)` cut, `(z)`] and the library's answers on the values they can see -/
+def wCutCfg : Cfg := { masks := [{ groups := [1], mode := .cut }, { groups := [1] }] }
+def wCutRe : Oracle := fun i v => if i = 0 ∧ v = wSecret then some [[0, 6, 0, 6]] else some []
+
+theorem wCutRe_ok : LoopOk wCutRe 0 wCutCfg.masks := by
+  refine ⟨?_, ?_, trivial⟩ <;> intro v idx h <;> refine ⟨1, by decide, ?_⟩
+  · unfold wCutRe at h
+    split at h
+    · rename_i hc; cases h; rw [hc.2]; decide
+    · cases h; rfl
+  · unfold wCutRe at h
+    simp at h
+    subst h; rfl
+
+theorem fmAt_nil (c : Cfg) : fmAt c [] = c.fmRoot := by
+  unfold fmAt; cases c.fmRoot <;> rfl
+
+def ka : Bytes := [97]
+def kb : Bytes := [98]
+def kc : Bytes := [99]
+
+/-- mask 0 `(secret)` with process_fields [a], mask 1 `(z)` with process_fields [a.b];
+    event {"a":{"b":"k","c":"secret"}} -/
+def wListCfg : Cfg :=
+  { masks := [{ groups := [1], fkind := 2, paths := [[ka]] }, { groups := [1], fkind := 2, paths := [[ka, kb]] }] }
+def wListEvent : JTree := .obj [(ka, .obj [(kb, .str [107]), (kc, .str wSecret)])]
+
+theorem wList_ok : LoopOk wCutRe 0 wListCfg.masks := wCutRe_ok
+
+
 end FileD.MaskLemmas
